@@ -38,6 +38,10 @@ def checks_on(wt):
 def main():
     wt, prefix = sys.argv[1], sys.argv[2]
     skip = "--skip-tests" in sys.argv
+    offset = 0
+    for a in sys.argv:
+        if a.startswith("--offset="):
+            offset = int(a.split("=")[1])
     from seed_eval import run_suite
     k = 0
     while True:
@@ -45,7 +49,7 @@ def main():
         d = os.path.join(wt, f"_ref{k}")
         if not os.path.isfile(os.path.join(d, "patch.diff")):
             break
-        rid = f"{prefix}-r{k}"
+        rid = f"{prefix}-r{k + offset}"
         meta = json.load(open(os.path.join(d, "meta.json")))
         sh(["git", "-C", wt, "checkout", "--", "discretisedfield"])
         rc, o = sh(["git", "-C", wt, "apply", os.path.join(d, "patch.diff")])
